@@ -252,6 +252,12 @@ func TestC01Streams(t *testing.T) {
 		if noNorm {
 			cls = append(cls, "cfg-header-names-not-normalised")
 		}
+		if last := s.Reqs[len(s.Reqs)-1]; last.Close && rapid.IntRange(0, 2).Draw(t, "bytesBehindTheCloseRequest") == 0 {
+			// the request that carries the close option is the last one of its connection: what follows it on the wire
+			// is not a request of this connection (RFC 7230 6.6, "MUST NOT process any further requests")
+			s.Bytes = append(s.Bytes, "GET /behind-close HTTP/1.1\r\nHost: example.com\r\n\r\n"...)
+			cls = append(cls, "bytes-behind-the-close-request")
+		}
 		rec.Case(nt, ev.Hash(s.Bytes, []byte(fmt.Sprint(stream, readBuf, s.Cuts, curStop, noNorm))), cls...)
 		if msg := CheckStream(server(stream, readBuf, noNorm), s); msg != "" {
 			t.Fatalf("streaming=%v readBuf=%d handlerStopsAfter=%d headerNamesNormalised=%v cuts=%v\n%s\nstream: %s", stream, readBuf, curStop, !noNorm, trimInts(s.Cuts), msg, srv.Short(s.Bytes))
